@@ -46,11 +46,18 @@ func c03(c *core.Ctx, r *core.Report) {
 				return "C03.R5"
 			case "failure-propagates", "plain":
 				return "C03.R2"
+			case "expose-iff-condition":
+				// (the premise of the rows above: a holder that asks for a singleton in creation is answered through
+				// the early-reference factory, which is there for every such singleton)
+				return "C03.R2"
 			}
 			return ""
 		}, cons, exposerRows)
 	}
 	smallModelCheck(c, r, "C03.R2", cons, l.exposer, 2)
+	// (the table asks the registry whether the name is in creation only if the routine does: a condition put in
+	// front of that question is decided on the condition's own structure)
+	exposureStructure(c, r, l, "C03.R2", "C03.R2")
 	// (b) Inject table: holder bookkeeping
 	irs, iruns, iund := injectTable(c, listLen(c))
 	r.Count("inject_table_runs", iruns)
